@@ -203,11 +203,11 @@ def run(ctx):
             elif nm == "Raw":
                 ex = [x for x in hq.find(a["body"], lambda x: x.get("k") == "MethodCall" and x["name"] == "extend_from_reader")]
                 amt = dix.canon(ex[0]["args"][1]) if len(ex) == 1 else None
-                ctx.check(amt == "($0.decompressed_size as usize)" and ret == "core::convert::num::from($0.decompressed_size)", RP,
+                ctx.check(amt == "($0.decompressed_size as usize)" and ret == "($0.decompressed_size as u64)", RP,
                           "decode_block_content::Raw", H.loc(db, a["body"]), "raw: the amount read is the amount reported",
                           observed={"read": amt, "returned": ret})
             elif nm == "Compressed":
-                ctx.check(ret == "core::convert::num::from($0.content_size)", RP, "decode_block_content::Compressed", H.loc(db, a["body"]),
+                ctx.check(ret == "($0.content_size as u64)", RP, "decode_block_content::Compressed", H.loc(db, a["body"]),
                           "compressed: content_size reported", observed=ret)
         cb = ctx.hir(BD + "::decompress_block")
         cix = hq.Index(cb)
@@ -250,11 +250,11 @@ def run(ctx):
                                   hq.field_chain(x["l"])[1][-1:] == ["bytes_read_counter"])]
         got = [hix.canon(x["r"]) for x in ups]
         want = ["core::convert::num::from(@Result::map_err.1)", "@Result::map_err#1", "4"]
-        ok = len(got) == 3 and got[2] == "4" and got[0].startswith("core::convert::num::from(@") and got[0].endswith(".1)") and got[1].startswith("@")
+        ok = len(got) == 3 and got[2] == "4" and got[0].startswith("(@") and got[0].endswith(".1 as u64)") and got[1].startswith("@")
         # provenance of the two dynamic amounts
         pv = hq.Canon(hb, inline=True, max_depth=4, force=True)
         p0, p1 = (pv(ups[0]["r"]), pv(ups[1]["r"])) if len(ups) == 3 else ("", "")
-        ok = ok and "BlockDecoder::read_block_header(" in p0 and p0.rstrip(")").endswith(".1") and "BlockDecoder::decode_block_content(" in p1
+        ok = ok and "BlockDecoder::read_block_header(" in p0 and p0.endswith(".1 as u64)") and "BlockDecoder::decode_block_content(" in p1
         ctx.check(ok and len(incs) == 3, RP, "decode_blocks::accounts-header-body-checksum", hb["file"],
                   "the consumed counter grows by the header size, the body size each callee reported, and 4 for the checksum",
                   observed=[p0[-80:], p1[:80], got[-1:]])
@@ -392,7 +392,7 @@ def run(ctx):
             pv = hq.Canon(v, inline=True, max_depth=4, force=True)
             er = [pv(x["args"][0]) for x in hq.find(erarm["body"], lambda x: x.get("k") == "MethodCall" and x["name"] == "resize")]
             okr = [pv(x["args"][0]) for x in hq.find(okarm["body"], lambda x: x.get("k") == "MethodCall" and x["name"] == "resize")]
-            ok = er == ["alloc::vec::Vec::len($1)"] and len(okr) == 1 and okr[0].startswith("core::cmp::min(") and \
+            ok = er == ["alloc::vec::Vec::len($1)"] and len(okr) == 1 and okr[0].startswith("core::cmp::Ord::min(") and \
                 "alloc::vec::Vec::capacity($1)" in okr[0] and "alloc::vec::Vec::len($1)" in okr[0] and \
                 H.show(hq.peel(hq.tail_expr(erarm["body"]))).startswith("Result::Err(")
             call = dom.one_call(v, "FrameDecoder::decode_all")
